@@ -455,8 +455,9 @@ class LibMixin:
         if t.args[0].kind == 'bytes':
             from .execcont import bsum_fn
             k = z3.Int('k!bi')
-            st.assume(z3.ForAll([k], z3.Implies(k >= 0, bsum_fn(new, k + 1) == blen(vt) + bsum_fn(a, k)),
-                                patterns=[bsum_fn(new, k + 1), bsum_fn(a, k)]))
+            # only from the new list to the old one (index decreases): no matching loop with the frame axioms
+            st.assume(z3.ForAll([k], z3.Implies(k >= 1, bsum_fn(new, k) == blen(vt) + bsum_fn(a, k - 1)),
+                                patterns=[bsum_fn(new, k)]))
         self.write_cont(c, st, t.mk(n + 1, new), node)
         yield st, NoneV()
 
@@ -687,6 +688,17 @@ class LibMixin:
             yield from hook(self, s, args, kw, st, frame, node)
             return
         yield st, Sc(fresh('join', Str), STR)
+
+    def sm_split(self, s, args, kw, st, frame, node):
+        hook = self.ctx.stubs.get('str.split')
+        if hook:
+            yield from hook(self, s, args, kw, st, frame, node)
+            return
+        # uninterpreted: a non-empty list of strings
+        t = T('list', [STR])
+        n = fresh('nsplit', z3.IntSort())
+        st.assume(n >= 1)
+        yield st, self.new_cont(t, st, t.mk(n, fresh('split', z3.ArraySort(z3.IntSort(), Str))))
 
     def sm_endswith(self, s, args, kw, st, frame, node):
         f = z3.Function('endswith', Str, Str, z3.BoolSort())
